@@ -22,6 +22,7 @@ EXTENDS LinearLabel, SequencesExt, Json
 
 CONSTANTS
     Tpls, MaxNL, MaxL,
+    Ords,             \* presentation orders offered (subset of {"std", "swap", "rev", "swaprev"}, see LabelExpand!Reorder)
     Focus,            \* TRUE: reactions without substrate or without product atoms (influx / efflux) take only the
                       \* identity, the reversal and the constant-0 map (their maps multiply the family otherwise)
     OnlyInvolutive,   \* TRUE: build only involutive maps (used to show that the pinned shape is right on them)
@@ -31,9 +32,9 @@ CONSTANTS
     LinMode,          \* "doc" | "pinned"
     EmitOn
 
-VARIABLES tpl, nl, maps, ci, ri, dk, stage,
+VARIABLES tpl, ord, nl, maps, ci, ri, dk, stage,
           sc      \* the finished case with everything the specification computes for it (filled in once, by the last step)
-vars == <<tpl, nl, maps, ci, ri, dk, stage, sc>>
+vars == <<tpl, ord, nl, maps, ci, ri, dk, stage, sc>>
 
 Empty == [n \in {} |-> 0]
 Rx(name, subs, prods, args) ==
@@ -79,7 +80,7 @@ Tpl(id) ==
                                      Rx("v2", <<"B">>, <<"C">>, <<"B", "k2">>),
                                      Rx("v3", <<"C">>, <<"A">>, <<"C", "k3">>)>>]
 
-T == Tpl(tpl)
+T == Reorder(Tpl(tpl), ord)
 
 Content ==
     [cpds |-> T.cpds,
@@ -89,6 +90,7 @@ Content ==
 
 Init ==
     /\ tpl \in Tpls
+    /\ ord \in Ords
     /\ nl = Empty /\ maps = Empty /\ ci = 1 /\ ri = 1 /\ dk = Empty
     /\ stage = "nl"
     /\ sc = <<>>
@@ -103,7 +105,7 @@ PickNL ==
             /\ stage' = "map"
             /\ maps' = (1 :> <<>>)
             /\ UNCHANGED <<nl, ci>>
-    /\ UNCHANGED <<tpl, ri, dk, sc>>
+    /\ UNCHANGED <<tpl, ord, ri, dk, sc>>
 
 \* an entry may be appended when the map can still become an involution (OnlyInvolutive)
 CanAppend(m, e, L) ==
@@ -129,7 +131,7 @@ PickEntry ==
        ELSE IF ri < Len(T.rxns)
             THEN ri' = ri + 1 /\ maps' = maps @@ ((ri + 1) :> <<>>) /\ UNCHANGED <<stage, ci>>
             ELSE stage' = "dist" /\ ci' = 1 /\ UNCHANGED <<ri, maps>>
-    /\ UNCHANGED <<tpl, nl, dk, sc>>
+    /\ UNCHANGED <<tpl, ord, nl, dk, sc>>
 
 NDist == 4
 Salt == SumSeq([j \in 1..Len(T.rxns) |-> IF j \in DOMAIN maps THEN SumSeq(maps[j]) ELSE 0])
@@ -167,7 +169,7 @@ Compute(d) ==
         isody == LRhs(b, y, "occurrence")
         inv   == \A j \in DOMAIN b.rxns : Involutive(b, b.rxns[j])
         uni(x) == [n \in DOMAIN e0 |-> x]
-    IN [tpl |-> tpl, b |-> b, dk |-> d, pool |-> pool, fluxi |-> flux,
+    IN [tpl |-> tpl, ord |-> ord, b |-> b, dk |-> d, pool |-> pool, fluxi |-> flux,
         flux |-> [n \in {b.rxns[j].name : j \in DOMAIN b.rxns} |-> flux[CHOOSE j \in DOMAIN b.rxns : b.rxns[j].name = n]],
         y |-> y, totals |-> Totals(b, y), steady |-> \A c \in CpdSet(b) : BRhs(b, pool)[c] = 0,
         isody |-> isody, involutive |-> inv, e0 |-> e0,
@@ -184,16 +186,30 @@ PickDist ==
                ELSE dk' = dk @@ (T.cpds[ci] :> ((Salt + ci) % NDist) + 1)
             /\ ci' = ci + 1 /\ UNCHANGED <<stage, sc>>
        ELSE stage' = "done" /\ sc' = Compute(dk) /\ UNCHANGED <<dk, ci>>
-    /\ UNCHANGED <<tpl, nl, maps, ri>>
+    /\ UNCHANGED <<tpl, ord, nl, maps, ri>>
 
 Next == PickNL \/ PickEntry \/ PickDist
 Done == stage = "done"
 
 ZeroFn == [n \in DOMAIN sc.e0 |-> Q!Zero]
 
+\* histories of the external enrichment (indices into Xs): build_model(external_label = Xs[h[1]]), then
+\* update_parameter("EXT", Xs[h[2]]), then update_parameter("EXT", Xs[h[3]]); after every update the right-hand side is
+\* the one of EXT = the value just set (ModelRhs of LinearLabel), and uniform enrichment equal to it is stationary
+Hists == << <<1, 4, 2>>, <<2, 1, 4>>, <<4, 1, 3>> >>
+IdxOf(x) == CHOOSE k \in 1..Len(Xs) : Xs[k] = x
+HistEvals ==
+    [i \in 1..Len(Hists) |->
+        [x0 |-> Xs[Hists[i][1]],
+         steps |-> [j \in 1..(Len(Hists[i]) - 1) |->
+                      LET m == AfterHistory([q \in 1..(j + 1) |-> Xs[Hists[i][q]]])
+                          k == IdxOf(m.ext)
+                      IN [x |-> m.ext, e |-> sc.e0, de |-> sc.lin[k],
+                          ue |-> [n \in DOMAIN sc.e0 |-> m.ext], ude |-> sc.uni[k]]]]]
+
 Scenario ==
-    [tpl |-> sc.tpl, b |-> sc.b, dk |-> sc.dk, pool |-> sc.pool, flux |-> sc.flux, y |-> sc.y, isody |-> sc.isody,
-     involutive |-> sc.involutive,
+    [tpl |-> sc.tpl, ord |-> sc.ord, b |-> sc.b, dk |-> sc.dk, pool |-> sc.pool, flux |-> sc.flux, y |-> sc.y, isody |-> sc.isody,
+     involutive |-> sc.involutive, hist |-> HistEvals,
      evals |-> <<[what |-> "isotopomer-derived", x |-> Q!One, e |-> sc.e0, de |-> sc.iso]>>
                \o [k \in 1..2 |-> [what |-> "linear definition, EXT below 1", x |-> Xs[k], e |-> sc.e0, de |-> sc.lin[k]]]
                \o [k \in 1..Len(Xs) |-> [what |-> "uniform enrichment equal to EXT", x |-> Xs[k],
@@ -206,6 +222,9 @@ ThDist     == Done => sc.totals = sc.pool /\ \A n \in DOMAIN sc.y : sc.y[n] >= 0
 ThLinIsIso == Done => sc.lin[4] = sc.iso                                   \* Xs[4] = 1: the external pool fully labelled
 ThUniform  == Done => \A k \in 1..Len(Xs) : sc.uni[k] = ZeroFn
 ThZero     == Done => sc.uni[1] = ZeroFn                                   \* Xs[1] = 0: no label anywhere, none appears
+\* the model's answer depends on the external enrichment last set, not on the one it was built with
+ThParam    == Done => \A i \in 1..Len(Hists) : \A j \in 2..Len(Hists[i]) :
+                 AfterHistory([q \in 1..j |-> Xs[Hists[i][q]]]) = BuiltModel(Xs[Hists[i][j]])
 ThInvol    == (Done /\ sc.involutive) => sc.pin = sc.doc
 \* every rational stayed in Rat's safe range
 ThSafe     == Done => \A n \in DOMAIN sc.e0 : Q!IsRat(sc.iso[n]) /\ Q!IsRat(sc.e0[n]) /\ \A k \in 1..Len(Xs) : Q!IsRat(sc.lin[k][n])
